@@ -632,12 +632,16 @@ func (P) Exec(c *harness.Case) *harness.Outcome {
 					}
 				}
 				got := "pass"
+				triggered := ""
 				harness.Call(o, "C13.probe-panicked", step, func() {
 					e, be := sentinel.Entry(name, harness.EntryOpts(3, true, []interface{}{1}, nil, nil)...)
 					if e != nil {
 						e.Exit()
 					}
 					if be != nil {
+						if tr := be.TriggeredRule(); tr != nil {
+							triggered = rs.Token(tr)
+						}
 						switch be.BlockType() {
 						case base.BlockTypeSystemFlow:
 							got = "system"
@@ -662,6 +666,30 @@ func (P) Exec(c *harness.Case) *harness.Outcome {
 				}
 				if want != "pass" {
 					o.Probe("probe_blocked_by_enforced_rule")
+					// the rule the block error names is one of the blocking rules of the latest load, as loaded (ID included)
+					named := false
+					var blockers []string
+					for mi, mn := range rs.ModuleName {
+						if mn != want {
+							continue
+						}
+						key := name
+						if mi == rs.System {
+							key = "*"
+						}
+						for _, x := range model[mi][key] {
+							if x.Blocker() {
+								blockers = append(blockers, x.Token())
+								if x.Token() == triggered || (mi == rs.System && rs.Sig(x.Token()) == rs.Sig(triggered)) {
+									named = true
+								}
+							}
+						}
+					}
+					if !named {
+						o.Fail("C13.block-names-a-rule-not-loaded", step, "probe on %s blocked by %s: the block error names %s as its cause; the blocking rules of the latest load are %v", name, want, triggered, blockers)
+						return o
+					}
 				}
 				now = append(now, got)
 			}
@@ -734,7 +762,7 @@ func checkState(o *harness.Outcome, step int, model []rset, scribble bool) bool 
 						perRes[n] = append(perRes[n], rs.Token(&r))
 					}
 					for _, tc := range hotspot.VerifControllersFor(n) {
-						enforced[n] = append(enforced[n], rs.Token(tc.BoundRule()))
+						enforced[n] = append(enforced[n], rs.EnforcedToken(tc.BoundRule()))
 					}
 				}
 			case rs.Breaker:
@@ -800,7 +828,14 @@ func checkState(o *harness.Outcome, step int, model []rset, scribble bool) bool 
 					o.Fail("C13.getter-mismatch", step, "%s: getter of %s reports %v, the valid rules of the latest load are %v", rs.ModuleName[m], key, perRes[key], w)
 					return
 				}
-				if !eq(enforced[key], w) {
+				we := w
+				if m == rs.Hotspot {
+					we = nil
+					for _, x := range l {
+						we = append(we, x.EnforcedToken())
+					}
+				}
+				if !eq(enforced[key], we) {
 					o.Fail("C13.enforced-mismatch", step, "%s: rules governing %s are %v, the valid rules of the latest load are %v (getter reports %v)", rs.ModuleName[m], key, enforced[key], w, perRes[key])
 					return
 				}
